@@ -554,7 +554,9 @@ def run(m: Model, r: Report, tier: str) -> None:
                        and n.func.attr == "matches" and n.args and isinstance(n.args[0], ast.Name)]
             detail = f"isinstance(RawRequest) tests {tested}, matches() is given {matched}"
             okc = tested == [parsed_var] and matched == [parsed_var]
-            sid_fallback = any(isinstance(n, ast.Compare) and "response.service_id" in ast.unparse(n) and "request.service_id" in ast.unparse(n)
+            resp_vars = {n.func.value.id for n in ast.walk(s) if isinstance(n, ast.Call) and isinstance(n.func, ast.Attribute)
+                         and n.func.attr == "matches" and isinstance(n.func.value, ast.Name)}
+            sid_fallback = any(isinstance(n, ast.Compare) and any(f"{rv}.service_id" in ast.unparse(n) for rv in resp_vars) and "request.service_id" in ast.unparse(n)
                                for n in ast.walk(s))
             r.check(sid_fallback, "R6", f"{pp.qualname}#raw-fallback-service-id",
                     "the raw-request fallback does not compare response.service_id with request.service_id", loc=pp.loc)
